@@ -1,0 +1,14 @@
+//go:build verif
+
+// Machine-checked contracts for govc (see /verif/DESIGN.md). Comments only;
+// compiled only with the build tag "verif".
+
+package endpoint
+
+// C11: the endpoint digest does not depend on map iteration order and covers URL, method, every
+// header and the authentication strategy.
+//@ func (Endpoint).Hash
+//@   props C11
+//@   logged ehash
+//@   nomaprange Write
+//@   ensures hw.n >= old(hw.n) + 3 && hw.arg1[old(hw.n)] == bytesOf(e.URL) && hw.arg1[old(hw.n) + 1] == bytesOf(e.Method)
